@@ -46,7 +46,10 @@ CallName(o) == CASE o = "qbid"    -> "Bid"
                  [] o = "price"   -> "Price"
                  [] o = "bcast"   -> "CreateBid"
 
-Results(o) == CASE o = "qbid"   -> {"found", "notfound", "err"}
+\* the existing-bid query of a catch-up order answers with this provider's bid in one of its chain states
+\* (open; active = matched by a lease; lost; closed), or "not found", or fails
+FoundStates == {"open", "active", "lost", "closed"}
+Results(o) == CASE o = "qbid"   -> FoundStates \cup {"notfound", "err"}
                 [] o = "group"  -> {"ok", "err"}
                 [] o = "should" -> {"yes", "no", "err"}
                 [] OTHER        -> {"ok", "err"}
@@ -69,7 +72,7 @@ VARIABLES
     bidPrice,    \* price put in MsgCreateBid (0: none)
     log,         \* ghost: call log
     nfail, nign, \* budgets used
-    chainBid,    \* ghost: a bid of ours exists on chain (found at catch-up or broadcast accepted)
+    chainBid,    \* ghost: an open bid of ours exists on chain (found open at catch-up or broadcast accepted)
     leased,      \* ghost: the order's lease has been created (for us or another provider)
     leaseOurs,   \* ghost: ... for us
     hist,        \* ghost: stimuli in order (only when Record)
@@ -85,19 +88,22 @@ vars == <<pc, op, parked, evq, shut, timer, bidPlaced, reservation, won, priceVa
 Starts(lg, c) == {i \in DOMAIN lg : lg[i].c = c /\ lg[i].ph = "start"}
 OkEnds(lg, c) == {i \in DOMAIN lg : lg[i].c = c /\ lg[i].ph = "end" /\ lg[i].r = "ok"}
 
-\* at most one bid is submitted
-AtMostOneBid(lg) == Cardinality(Starts(lg, "CreateBid")) <= 1
+\* at most one bid is submitted for the order: the bid broadcasts of this monitor plus the bid this provider
+\* already has on the order (the existing-bid query of a catch-up order answered with one, in whatever state)
+FoundBids(lg) == {i \in DOMAIN lg : lg[i].c = "Bid" /\ lg[i].ph = "end" /\ lg[i].r \in FoundStates}
+AtMostOneBid(lg) == Cardinality(Starts(lg, "CreateBid")) + Cardinality(FoundBids(lg)) <= 1
 \* never above the order's maximum price
 BidBounded(lg, mx) == \A i \in Starts(lg, "CreateBid") : lg[i].price <= mx
 \* only after resources were reserved
 BidAfterReserve(lg) == \A i \in Starts(lg, "CreateBid") : \E j \in OkEnds(lg, "Reserve") : j < i
 \* every reservation made has been released
 ReservationsReleased(lg) == \A i \in OkEnds(lg, "Reserve") : \E j \in Starts(lg, "Unreserve") : j > i
-\* bids it placed: an accepted CreateBid broadcast, or its bid found on chain at catch-up (the monitor has
-\* consumed the answer of the existing-bid query: entry "Bid"/"seen"; an answer still in flight when the
-\* order ends is not yet a bid the monitor knows of -- the weaker reading)
+\* bids it placed that need closing: an accepted CreateBid broadcast, or its bid found OPEN on chain at catch-up
+\* (the monitor has consumed the answer of the existing-bid query: entry "Bid"/"seen"; an answer still in flight
+\* when the order ends is not yet a bid the monitor knows of; a bid found closed / lost / active needs no
+\* close-bid -- the weaker readings; the code as it stands closes those too, which is allowed)
 PlacedBids(lg) == OkEnds(lg, "CreateBid") \cup
-                  {i \in DOMAIN lg : lg[i].c = "Bid" /\ lg[i].ph = "seen" /\ lg[i].r = "found"}
+                  {i \in DOMAIN lg : lg[i].c = "Bid" /\ lg[i].ph = "seen" /\ lg[i].r = "open"}
 \* a close-bid transaction has been submitted for any bid it placed
 BidsClosed(lg) == \A i \in PlacedBids(lg) : \E j \in Starts(lg, "CloseBid") : j > i
 
@@ -108,7 +114,7 @@ C13End(lg, ours) == ours \/ (ReservationsReleased(lg) /\ BidsClosed(lg))
 -----------------------------------------------------------------------------
 H(tok) == IF Record THEN Append(hist, tok) ELSE hist
 \* the ghost log keeps the calls C13 talks about (Reserve / CreateBid here; Unreserve / CloseBid in the exit path)
-Logged(o) == o \in {"reserve", "bcast"}
+Logged(o) == o \in {"reserve", "bcast", "qbid"}
 Entry(c, ph, r, p) == [c |-> c, ph |-> ph, r |-> r, price |-> p]
 
 InFlight(o)   == op[o] \in {"launched", "run"}
@@ -199,11 +205,13 @@ Complete(o, r, p) ==
        IN  nfail' = IF r = "err" /\ ~free THEN nfail + 1 ELSE nfail
     /\ nfail' <= MaxFail
     /\ priceVal' = IF o = "price" /\ r = "ok" THEN p ELSE priceVal
-    /\ chainBid' = (chainBid \/ (o = "qbid" /\ r = "found") \/ (o = "bcast" /\ r = "ok"))
+    /\ chainBid' = (chainBid \/ (o = "qbid" /\ r = "open") \/ (o = "bcast" /\ r = "ok"))
+    /\ leased' = (leased \/ (o = "qbid" /\ r \in {"active", "lost"}))        \* the order's lease exists already
+    /\ leaseOurs' = (leaseOurs \/ (o = "qbid" /\ r = "active"))              \* ... and it is ours
     /\ log' = IF Logged(o) THEN Append(log, Entry(CallName(o), "end", r, p)) ELSE log
     /\ hist' = H([a |-> "complete", o |-> o, r |-> r, p |-> p])
     /\ UNCHANGED <<pc, parked, evq, shut, timer, bidPlaced, reservation, won, bidPrice,
-                   nign, leased, leaseOurs, mode, tcfg>>
+                   nign, mode, tcfg>>
 
 \* a chain event reaches the monitor's subscription
 Deliver(k) ==
@@ -257,7 +265,7 @@ CaseQBid ==
     /\ IF op["qbid"] = "err"
        THEN pc' = "exit" /\ UNCHANGED <<parked, bidPlaced>>
        ELSE /\ pc' = pc
-            /\ bidPlaced' = (bidPlaced \/ op["qbid"] = "found")
+            /\ bidPlaced' = (bidPlaced \/ op["qbid"] \in FoundStates)   \* as the code stands: whatever its state
             /\ parked' = FALSE                        \* allow getting the group result now
     /\ log' = Append(log, Entry("Bid", "seen", op["qbid"], 0))
     /\ UNCHANGED <<evq, timer, reservation, won, bidPrice>> /\ LoopUnch0
@@ -370,7 +378,7 @@ Finish ==
 ExitPath == XUnresStart \/ XCloseStart \/ Finish \/ \E r \in {"ok", "err"} : XUnresEnd(r) \/ XCloseEnd(r)
 
 -----------------------------------------------------------------------------
-Env == \/ \E o \in Ops, r \in {"ok", "err", "yes", "no", "found", "notfound"}, p \in Prices \cup {0} : Complete(o, r, p)
+Env == \/ \E o \in Ops, r \in {"ok", "err", "yes", "no", "notfound"} \cup FoundStates, p \in Prices \cup {0} : Complete(o, r, p)
        \/ \E k \in Kinds : Deliver(k)
        \/ Shutdown
        \/ FireTimer
@@ -384,12 +392,12 @@ Spec == Init /\ [][Next]_vars
 \* fairness for the termination check: goroutines run, gates are eventually released
 FairSpec == /\ Spec
             /\ WF_vars(Internal)
-            /\ \A o \in Ops : WF_vars(\E r \in {"ok", "err", "yes", "no", "found", "notfound"}, p \in Prices \cup {0} : Complete(o, r, p))
+            /\ \A o \in Ops : WF_vars(\E r \in {"ok", "err", "yes", "no", "notfound"} \cup FoundStates, p \in Prices \cup {0} : Complete(o, r, p))
 
 -----------------------------------------------------------------------------
 (* Properties *)
 
-OpStates == {"none", "launched", "run", "used", "aborted", "ok", "err", "yes", "no", "found", "notfound"}
+OpStates == {"none", "launched", "run", "used", "aborted", "ok", "err", "yes", "no", "notfound"} \cup FoundStates
 
 TypeOK ==
     /\ pc \in {"loop", "exit", "x_unres", "exit_u", "x_close", "exit_c", "done"}
